@@ -88,7 +88,11 @@ class Witness(BaseNode):
         self.hash_ts = hash_ts
 
     def init_params(self, rng=None, graph_state=None):
-        return WParams(nonce=jnp.int32(0))
+        # seed-dependent on purpose (so that "which params did the steps see" is observable); harnesses that need a fixed
+        # nonce override it explicitly (drive_async.with_nonce)
+        if rng is None:
+            return WParams(nonce=jnp.int32(0))
+        return WParams(nonce=jax.random.randint(rng, (), 0, 1 << 20, dtype=jnp.int32))
 
     def init_state(self, rng=None, graph_state=None):
         return WState(h=U32(0), cnt=jnp.int32(0))
